@@ -1,5 +1,5 @@
 (* C17 — Encodings round-trip.  Property theorems only. *)
-Require Import DS.Base DS.Utf8 DS.Strings DS.Codec DS.CodecProof DS.Json DS.JsonProof.
+Require Import DS.Base DS.Utf8 DS.Strings DS.Codec DS.CodecProof DS.Json DS.JsonProof DS.CodecProps DS.CodecPropsProof.
 
 (* base64_decode (base64_encode bytes) = bytes, for every byte string (any length) *)
 Theorem C17_b64 : forall bs, bytes bs -> b64_decode (b64_encode bs) = Some bs.
@@ -81,3 +81,135 @@ Example C17_json_nonvacuous :
   roundtrip_model JNull = Some None /\
   no_handle_leafb (JArr [JStr (hname 0)]) = false.
 Proof. vm_compute. repeat split. Qed.
+
+(* ---- properties format: map_to_properties followed by map_load_properties ---------------------- *)
+(* Models (CodecProps.v): the java-properties 2.0.0 writer (write_escaped, the windows-1252 EncodingWriter with
+   its Vec<u8> buffer and unpadded \u escapes) and reader (windows-1252 decoding of the text's UTF-8 bytes,
+   NaturalLines, LogicalLines, LINE_RE, unescape) and the glue of the two commands (prefix, str::from_utf8,
+   trim_end_matches, insertion into the map).  [m] is the map in its HashMap iteration order, so "forall m"
+   covers every order.
+
+   The domain [representable (k, v)] is exact per pair and has four parts, all of them DEFECTS of the code (the
+   format itself can carry every string: empty keys, leading blanks, '=', ':', '#', line breaks are all escaped):
+     char_ok      excludes the characters written as a \u escape of fewer or more than four digits: control
+                  characters other than TAB LF FF CR, and characters that windows-1252 cannot encode outside
+                  U+1000..U+FFFF                                                              (known finding F18)
+     utf8_ok      the windows-1252 bytes of the key / of the value must happen to be valid UTF-8, because
+                  map_to_properties reads the writer's output with str::from_utf8            (known finding F18)
+     pair_clean   no \u escape may straddle the end of the writer's buffer (256 bytes, tripled when full): the
+                  crate drops the rest of such an escape         (candidate finding, C17_properties_truncation_refuted)
+     no BOM       the written bytes of the key must not start with EF BB BF (the key starts with "ï»¿"): when that key
+                  is written first the text starts with U+FEFF, and the reader's decoder (Encoding::new_decoder, with
+                  BOM sniffing) then reads the whole text as UTF-8 and drops the mark
+                                                                        (candidate finding, C17_properties_bom_refuted) *)
+
+(* a map written with map_to_properties and read back with map_load_properties has the same keys and values:
+   all maps, all sizes, all iteration orders, all strings of the domain *)
+Theorem C17_properties : forall m,
+  Forall (fun kv => representable kv = true) m -> NoDup (map fst m) -> pp_roundtrip [] [] m = POk m.
+Proof. exact properties_roundtrip_plain. Qed.
+
+(* the same with --prefix p on the writing and --prefix q on the reading side: the keys come back as q.p.k *)
+Theorem C17_properties_prefix : forall p q m,
+  Forall (fun kv => representable kv = true) (pp_prefix_map p m) -> NoDup (map fst m) ->
+  pp_roundtrip p q m = POk (pp_prefix_map q (pp_prefix_map p m)).
+Proof. exact properties_roundtrip. Qed.
+
+(* on the domain the bytes written are the lines of the pairs, one after the other, nothing cut: the text depends on
+   the iteration order only through the order of its lines *)
+Theorem C17_properties_writer : forall m,
+  Forall (fun kv => pair_clean (fst kv) (snd kv) = true) m -> pp_write m = POk (concat (map line_bytes m)).
+Proof. exact pp_write_clean. Qed.
+
+(* the writer's loop never runs out of the model's fuel on clean input, from any buffer state *)
+Theorem C17_properties_fuel : forall data cap c', 0 < cap -> ew_clean data 0 cap = (true, c') ->
+  pp_ew_write data cap = POk (wire_bytes data, c').
+Proof. exact pp_ew_write_clean. Qed.
+
+(* the domain is not vacuous: every ASCII text without control characters other than TAB LF FF CR, of any length,
+   is in it; and a pair whose written form is at most 256 bytes each is never cut *)
+Theorem C17_properties_ascii : forall k v,
+  forallb ascii_ok k = true -> forallb ascii_ok v = true -> representable (k, v) = true.
+Proof. exact representable_ascii. Qed.
+Theorem C17_properties_short : forall k v,
+  nlen (wire_bytes (pp_write_escaped k)) <= 256 -> nlen (wire_bytes (pp_write_escaped v)) <= 256 -> pair_clean k v = true.
+Proof. exact pair_clean_short. Qed.
+
+(* boolean and propositional duplicate-freeness agree (the check uses the boolean) *)
+Theorem C17_properties_nodup : forall l, str_nodup l = true <-> NoDup l.
+Proof. exact str_nodup_spec. Qed.
+
+(* members of the domain: blanks, separators, comment signs, backslashes, line breaks, an empty key, CJK (written as
+   日), and "Ã©" whose windows-1252 bytes C3 A9 happen to be UTF-8 *)
+Example C17_properties_nonvacuous :
+  representable ([97; 32; 98], [32; 120; 92; 121; 10; 26085]) = true /\
+  representable ([], []) = true /\ representable ([35; 33; 58; 61], [9; 13; 12; 127]) = true /\
+  representable ([107], [195; 169]) = true /\
+  pp_roundtrip [112] [113] [([97; 32; 98], [32; 120; 92; 121; 10; 26085]); ([], [])] =
+    POk [([113; 46; 112; 46; 97; 32; 98], [32; 120; 92; 121; 10; 26085]); ([113; 46; 112; 46], [])].
+Proof. vm_compute. repeat split. Qed.
+
+(* known finding F18, inside the model: {k: "é"} is not UTF-8 after writing; {k: U+0001} is written as \u1 and
+   rejected by the reader; {k: U+1F600} is written as ὠ0 and comes back as U+1F60 followed by '0' *)
+Theorem C17_properties_F18_witnesses :
+  representable ([107], [233]) = false /\ pp_roundtrip [] [] [([107], [233])] = PErr pe_utf8 0 /\
+  representable ([107], [1]) = false /\ pp_roundtrip [] [] [([107], [1])] = PErr pe_digits 1 /\
+  representable ([107], [128512]) = false /\ pp_roundtrip [] [] [([107], [128512])] = POk [([107], [8032; 48])].
+Proof. vm_compute. repeat split. Qed.
+Theorem C17_properties_F18_refuted : exists m, NoDup (map fst m) /\ pp_roundtrip [] [] m <> POk m.
+Proof.
+  exists [([107], [128512])]. split; [repeat constructor; cbn; tauto|].
+  destruct C17_properties_F18_witnesses as (_ & _ & _ & _ & _ & H). rewrite H. discriminate.
+Qed.
+
+(* candidate finding (not F18): every character of the value is fine and the bytes are UTF-8, but the value is 255
+   'a' followed by U+65E5: one byte is left in the writer's 256-byte buffer, the escape 日 is cut to "\", the line
+   ends in a continuation backslash at the end of the text and the reader drops the pair: the map comes back EMPTY.
+   With 253 'a' the escape is cut to "\u6" and the reader rejects the text. *)
+Theorem C17_properties_truncation_witnesses :
+  let v255 := repeat 97 255 ++ [26085] in
+  let v253 := repeat 97 253 ++ [26085] in
+  forallb char_ok v255 = true /\ utf8_ok (wire_bytes (pp_write_escaped v255)) = true /\ pair_clean [107] v255 = false /\
+  pp_roundtrip [] [] [([107], v255)] = POk [] /\
+  pair_clean [107] v253 = false /\ pp_roundtrip [] [] [([107], v253)] = PErr pe_digits 1 /\
+  representable ([107], repeat 97 250 ++ [26085]) = true /\ representable ([107], repeat 97 256 ++ [26085]) = true.
+Proof. vm_compute. repeat split. Qed.
+Theorem C17_properties_truncation_refuted : exists m,
+  NoDup (map fst m) /\ Forall (fun kv => forallb char_ok (fst kv) && forallb char_ok (snd kv) &&
+                                         utf8_ok (wire_bytes (pp_write_escaped (fst kv))) &&
+                                         utf8_ok (wire_bytes (pp_write_escaped (snd kv))) = true) m /\
+  pp_roundtrip [] [] m <> POk m.
+Proof.
+  exists [([107], repeat 97 255 ++ [26085])]. split; [repeat constructor; cbn; tauto|].
+  split; [constructor; [vm_compute; reflexivity|constructor]|].
+  destruct C17_properties_truncation_witnesses as (_ & _ & _ & H & _). cbv zeta in H. rewrite H. discriminate.
+Qed.
+
+(* candidate finding (not F18): the key "ï»¿k" (U+00EF U+00BB U+00BF 'k') is written as the bytes EF BB BF 6B, which
+   map_to_properties reads as the text U+FEFF "k=v"; the reader sniffs the byte order mark, switches from windows-1252
+   to UTF-8 and drops the mark: the pair comes back under the key "k".  Every character is fine, the bytes are UTF-8,
+   nothing is cut. *)
+Theorem C17_properties_bom_witnesses :
+  forallb char_ok [239; 187; 191; 107] = true /\ utf8_ok (wire_bytes (pp_write_escaped [239; 187; 191; 107])) = true /\
+  pair_clean [239; 187; 191; 107] [118] = true /\ representable ([239; 187; 191; 107], [118]) = false /\
+  cmd_map_to_properties [] [([239; 187; 191; 107], [118])] = POk [65279; 107; 61; 118] /\
+  pp_roundtrip [] [] [([239; 187; 191; 107], [118])] = POk [([107], [118])] /\
+  representable ([107], [239; 187; 191; 118]) = true.
+Proof. vm_compute. repeat split. Qed.
+Theorem C17_properties_bom_refuted : exists m,
+  NoDup (map fst m) /\ Forall (fun kv => forallb char_ok (fst kv) && forallb char_ok (snd kv) &&
+                                         utf8_ok (wire_bytes (pp_write_escaped (fst kv))) &&
+                                         utf8_ok (wire_bytes (pp_write_escaped (snd kv))) &&
+                                         pair_clean (fst kv) (snd kv) = true) m /\
+  pp_roundtrip [] [] m <> POk m.
+Proof.
+  exists [([239; 187; 191; 107], [118])]. split; [repeat constructor; cbn; tauto|].
+  split; [constructor; [vm_compute; reflexivity|constructor]|].
+  destruct C17_properties_bom_witnesses as (_ & _ & _ & _ & _ & H & _). rewrite H. discriminate.
+Qed.
+
+(* whatever the text, the logical lines handed to parse_line hold neither CR nor LF: the assumption under which
+   LINE_RE (whose '.' does not match LF) is modelled by the scanner pp_parse_line *)
+Theorem C17_properties_lines : forall text,
+  Forall (fun l => Forall (fun c => is_nl c = false) (snd l)) (pp_logical_lines (pp_natural_lines text)).
+Proof. exact logical_lines_no_nl. Qed.
